@@ -1,7 +1,160 @@
 /- Helper lemmas for C12. -/
 import SigV4.Spec.ValidateSpec
 import SigV4.Spec.UriSpec
+import SigV4.Lemmas.Uri
+import SigV4.Lemmas.Query
+import SigV4.Lemmas.C15
 
 namespace SigV4
+
+/-! ### `splitOn` over an append with the separator in between -/
+
+theorem c12_splitOn_ne_nil (sep : UInt8) (s : Bytes) : splitOn sep s ≠ [] := by
+  induction s with
+  | nil => simp [splitOn]
+  | cons c cs ih =>
+    unfold splitOn
+    split
+    · simp
+    · split
+      · simp
+      · simp
+
+theorem c12_splitOn_append_sep (sep : UInt8) (a b : Bytes) :
+    splitOn sep (a ++ sep :: b) = splitOn sep a ++ splitOn sep b := by
+  induction a with
+  | nil => simp [splitOn]
+  | cons c cs ih =>
+    rw [List.cons_append]
+    rw [splitOn.eq_2 sep c (cs ++ sep :: b), splitOn.eq_2 sep c cs]
+    by_cases hc : c = sep
+    · simp [hc, ih]
+    · rw [if_neg hc, if_neg hc, ih]
+      cases hs : splitOn sep cs with
+      | nil => exact absurd hs (c12_splitOn_ne_nil sep cs)
+      | cons p ps => simp
+
+/-! ### `mapM` in `Option` over an append -/
+
+theorem c12_optMapM_append {α β : Type} (f : α → Option β) (l₁ l₂ : List α) :
+    (l₁ ++ l₂).mapM f = (l₁.mapM f).bind fun a => (l₂.mapM f).map (a ++ ·) := by
+  induction l₁ with
+  | nil =>
+    simp only [List.nil_append, List.mapM_nil]
+    cases l₂.mapM f <;> rfl
+  | cons x xs ih =>
+    rw [List.cons_append, optMapM_cons, optMapM_cons, ih]
+    cases f x with
+    | none => rfl
+    | some y =>
+      cases xs.mapM f with
+      | none => rfl
+      | some ys =>
+        cases l₂.mapM f with
+        | none => rfl
+        | some zs => rfl
+
+theorem c12_refQueryPairs_append (q text : Bytes) :
+    refQueryPairs (q ++ [0x26] ++ text) =
+      (refQueryPairs q).bind fun a => (refQueryPairs text).map (a ++ ·) := by
+  unfold refQueryPairs
+  rw [List.append_assoc, List.singleton_append, c12_splitOn_append_sep, List.filter_append,
+    c12_optMapM_append]
+
+/-! ### What a successful parse says -/
+
+theorem c12_parseQuery_ok (q : Bytes) (m : QueryMap) (h : parseQuery q = .ok m) :
+    ∃ ps, refQueryPairs q = some ps ∧ m = groupPairs (ps.map encPair) := by
+  rw [parseQuery_eq_spec'] at h
+  cases hr : refQueryPairs q with
+  | none => rw [hr] at h; simp [optToOutcome] at h
+  | some ps =>
+    rw [hr] at h
+    simp only [Option.map_some, optToOutcome, Outcome.ok.injEq] at h
+    exact ⟨ps, rfl, h.symm⟩
+
+theorem c12_nodup_keys_foldl (l : List (Bytes × Bytes)) (m0 : QueryMap) (h : (m0.map (·.1)).Nodup) :
+    ((l.foldl (fun m kv => assocPush m kv.1 kv.2) m0).map (·.1)).Nodup := by
+  induction l generalizing m0 with
+  | nil => exact h
+  | cons x xs ih =>
+    simp only [List.foldl_cons]
+    exact ih _ (nodup_keys_assocPush m0 x.1 x.2 h)
+
+theorem c12_nodup_keys_groupPairs (l : List (Bytes × Bytes)) : ((groupPairs l).map (·.1)).Nodup := by
+  unfold groupPairs
+  exact c12_nodup_keys_foldl l [] (by simp)
+
+theorem c12_parseQuery_nodup (q : Bytes) (m : QueryMap) (h : parseQuery q = .ok m) :
+    (m.map (·.1)).Nodup := by
+  obtain ⟨ps, _, rfl⟩ := c12_parseQuery_ok q m h
+  exact c12_nodup_keys_groupPairs _
+
+/-! ### Merging is a permutation of the two pair lists -/
+
+theorem c12_flattenMap_assocExtend_perm (m : QueryMap) (k : Bytes) (vs : List Bytes) :
+    (flattenMap (assocExtend m k vs)).Perm (flattenMap m ++ vs.map fun v => (k, v)) := by
+  induction m with
+  | nil => simp [assocExtend, flattenMap]
+  | cons kv rest ih =>
+    obtain ⟨k', vs'⟩ := kv
+    simp only [assocExtend]
+    split
+    · rename_i hk
+      subst hk
+      simp only [flattenMap_cons, List.map_append, List.append_assoc]
+      exact List.Perm.append_left _ List.perm_append_comm
+    · simp only [flattenMap_cons, List.append_assoc]
+      exact List.Perm.append_left _ ih
+
+theorem c12_flattenMap_mergeParams_perm (up bp : QueryMap) :
+    (flattenMap (mergeParams up bp)).Perm (flattenMap up ++ flattenMap bp) := by
+  unfold mergeParams
+  induction bp generalizing up with
+  | nil => simp [flattenMap_nil]
+  | cons kv rest ih =>
+    simp only [List.foldl_cons]
+    refine (ih _).trans ?_
+    rw [flattenMap_cons, ← List.append_assoc]
+    exact (c12_flattenMap_assocExtend_perm up kv.1 kv.2).append_right _
+
+theorem c12_canonQuery_of_flatten_perm (m m' : QueryMap) (h : (flattenMap m).Perm (flattenMap m')) :
+    canonQuery m = canonQuery m' := by
+  unfold canonQuery
+  rw [queryPairs_eq_filter, queryPairs_eq_filter]
+  congr 2
+  exact sortBy_pairLe_eq_of_perm (h.filter _)
+
+/-! ### `hexLower` is injective -/
+
+theorem c12_hexLower_facts : ∀ c : UInt8,
+    hexVal (hexDigitLower (c >>> (4 : UInt8))) = some (c >>> (4 : UInt8)) ∧
+    hexVal (hexDigitLower (c &&& (0xF : UInt8))) = some (c &&& (0xF : UInt8)) ∧
+    (c >>> (4 : UInt8)) * 16 + (c &&& (0xF : UInt8)) = c := by
+  apply u8_forall; decide +kernel
+
+theorem c12_hexByte_inj : ∀ a b : UInt8,
+    hexDigitLower (a >>> (4 : UInt8)) = hexDigitLower (b >>> (4 : UInt8)) →
+    hexDigitLower (a &&& (0xF : UInt8)) = hexDigitLower (b &&& (0xF : UInt8)) → a = b := by
+  intro a b h1 h2
+  obtain ⟨a1, a2, a3⟩ := c12_hexLower_facts a
+  obtain ⟨b1, b2, b3⟩ := c12_hexLower_facts b
+  rw [h1, b1] at a1
+  rw [h2, b2] at a2
+  rw [← a3, ← b3, Option.some.inj a1, Option.some.inj a2]
+
+theorem c12_hexLower_inj (a b : Bytes) (h : hexLower a = hexLower b) : a = b := by
+  induction a generalizing b with
+  | nil =>
+    cases b with
+    | nil => rfl
+    | cons y ys => simp [hexLower] at h
+  | cons x xs ih =>
+    cases b with
+    | nil => simp [hexLower] at h
+    | cons y ys =>
+      simp only [hexLower, List.flatMap_cons, List.cons_append, List.nil_append, List.cons.injEq] at h
+      obtain ⟨h1, h2, h3⟩ := h
+      rw [c12_hexByte_inj x y h1 h2, ih ys h3]
 
 end SigV4
